@@ -6,6 +6,7 @@ mod driver;
 mod exec;
 mod framework;
 mod gen;
+mod imp;
 mod ledger;
 mod model;
 mod obs;
@@ -29,10 +30,13 @@ static C13: checks::c13::C13 = checks::c13::C13;
 
 static C14: checks::c14::C14 = checks::c14::C14;
 
+static C15: checks::csvimp::C15 = checks::csvimp::C15;
+static C16: checks::csvimp::C16 = checks::csvimp::C16;
+static C17: checks::csvimp::C17 = checks::csvimp::C17;
 static C20: checks::c20::C20 = checks::c20::C20;
 
 fn registry() -> Vec<&'static dyn DynCheck> {
-    vec![&C01, &C02, &C03, &C04, &C06, &C08, &C09, &C10, &C11, &C12, &C13, &C14, &C20]
+    vec![&C01, &C02, &C03, &C04, &C06, &C08, &C09, &C10, &C11, &C12, &C13, &C14, &C15, &C16, &C17, &C20]
 }
 
 fn find(id: &str) -> &'static dyn DynCheck {
